@@ -59,7 +59,8 @@ pub fn run_write(out: &mut Out, seed: u64, tier: &str) {
     let n_cases = if tier == "thorough" { 4000 } else { 500 };
     let (mut worst, mut n_atoms_total, mut wide) = (0.0f64, 0usize, 0usize);
     for c in 0..n_cases {
-        let n = 1 + rng.below(8);
+        // mostly small files; one in twenty-five has a round or power-of-two atom count (and its neighbours): 64 ... 1025
+        let n = if c % 25 == 12 { *rng.pick(&[64usize, 100, 127, 128, 129, 200, 255, 256, 257, 300, 400, 401, 500, 512, 513, 600, 800, 1000, 1024, 1025]) } else { 1 + rng.below(8) };
         let zs: Vec<usize> = (0..n).map(|_| if c % 3 == 0 { 1 + rng.below(118) } else { *rng.pick(&[1usize, 6, 7, 8, 17, 26, 78, 118]) }).collect();
         let mut xs: Vec<[f64; 3]> = (0..n).map(|_| [special_values(&mut rng), special_values(&mut rng), special_values(&mut rng)]).collect();
         let mut zs = zs;
@@ -187,6 +188,15 @@ pub fn run_read(out: &mut Out, seed: u64, tier: &str) {
             if selfref { for k in 0..3 { if rng.chance(0.6) { v[k] = *rng.pick(&[z as f64, z as f64, ai as f64, (ai + 1) as f64, n as f64, 0.0, 1.0, -1.0, -(z as f64)]); } } }
             let t = [num_spelling(v[0], &mut rng), num_spelling(v[1], &mut rng), num_spelling(v[2], &mut rng)];
             let sep = |rng: &mut Rng| -> String { match rng.below(4) { 0 => " ".into(), 1 => "\t".into(), 2 => "   ".into(), _ => " \t ".into() } };
+            // the most compact spelling there is: one-letter symbol, single spaces, single digits ("H 1 0 0": seven bytes)
+            if selfref && rng.chance(0.3) {
+                let z1 = *rng.pick(&[1usize, 5, 6, 7, 8, 9, 15, 16, 19, 23, 39, 53, 74, 92]);
+                let d = [rng.below(10) as f64, rng.below(10) as f64, rng.below(10) as f64];
+                let t = [format!("{}", d[0] as i64), format!("{}", d[1] as i64), format!("{}", d[2] as i64)];
+                lines.push(format!("{} {} {} {}", syms[z1 - 1], t[0], t[1], t[2]));
+                expect.push((z1, t));
+                continue;
+            }
             let mut l = String::new();
             if rng.chance(0.3) { l += &sep(&mut rng); }
             l += &syms[z - 1]; l += &sep(&mut rng); l += &t[0]; l += &sep(&mut rng); l += &t[1]; l += &sep(&mut rng); l += &t[2];
